@@ -25,11 +25,14 @@ import (
 
 	"go.dedis.ch/kyber/v4"
 	"go.dedis.ch/kyber/v4/group/edwards25519"
+	"go.dedis.ch/kyber/v4/pairing"
+	"go.dedis.ch/kyber/v4/pairing/bn256"
 	"go.dedis.ch/kyber/v4/proof"
 	"go.dedis.ch/kyber/v4/share"
 	"go.dedis.ch/kyber/v4/share/pvss"
 	"go.dedis.ch/kyber/v4/sign/bdn"
 	"go.dedis.ch/kyber/v4/sign/cosi"
+	"go.dedis.ch/kyber/v4/sign/eddsa"
 	"go.dedis.ch/kyber/v4/sign/schnorr"
 	"pgregory.net/rapid"
 )
@@ -513,3 +516,122 @@ const c20Rule = "the test binary is built with -race. (table) for every exposed 
 	"(schemes) pairs out of {schnorr.Verify with a shared key, suite.RandomStream reads, PubPoly.Eval/Check/Commit, proof.HashVerify with shared predicate and points, CoSi mask reads, BDN Mask.Clone / AggregatePublicKeys on a shared mask / bls.Verify with a shared key for five suite combinations}; (mixes) rapid-drawn sets of 3-6 methods over one group's shared values. " +
 	"Oracle: the race detector's report (any 'DATA RACE' fails the sub-test whose name is the minimal repro) and equality of every concurrent result with a sequential run on twin objects. non-trivial = every case (all run concurrently on shared, non-normalised values); distinct = distinct (group, method set)" +
 	" Added after the sensitivity rounds: flagged receivers; every method against itself on shared values DECODED from bytes (scalar from k+q); one stream value shared by all goroutines; shared bn254 suites with caller-set tags; per-goroutine clones of one used XOF."
+
+// ------------------------------------------------------------------ first use is concurrent
+
+// c20FreshFactories: each factory builds a NEW object (or set of values) and returns read-only
+// operations on it.  TestC20_FirstUse starts several goroutines on an object nobody has used yet, so
+// that the very first call of every operation runs concurrently with the others: a value computed
+// lazily and stored inside the object on first use (a cached encoding, a table, a pooled engine) is
+// written by all of them at once.  The warmed-up objects of the other C20 tests never show that.
+func c20FreshFactories() []struct {
+	name string
+	mk   func(round int) []roMethod
+} {
+	ed := edwards25519.NewBlakeSHA256Ed25519()
+	msg := []byte("first use")
+	type fac = struct {
+		name string
+		mk   func(round int) []roMethod
+	}
+	var out []fac
+	out = append(out, fac{"eddsa.NewEdDSA: Sign", func(round int) []roMethod {
+		e := eddsa.NewEdDSA(xofStream([]byte(fmt.Sprintf("c20-fresh-eddsa-%d", round))))
+		return []roMethod{{"EdDSA.Sign", func() string { s, err := e.Sign(msg); return fmt.Sprintf("%x %v", s, err) }},
+			{"EdDSA.MarshalBinary", func() string { b, err := e.MarshalBinary(); return fmt.Sprintf("%x %v", b, err) }}}
+	}}, fac{"EdDSA restored by UnmarshalBinary: Sign", func(round int) []roMethod {
+		src := eddsa.NewEdDSA(xofStream([]byte(fmt.Sprintf("c20-fresh-eddsa2-%d", round))))
+		b, _ := src.MarshalBinary()
+		e := &eddsa.EdDSA{}
+		if err := e.UnmarshalBinary(b); err != nil {
+			return nil
+		}
+		return []roMethod{{"restored EdDSA.Sign", func() string { s, err := e.Sign(msg); return fmt.Sprintf("%x %v", s, err) }}}
+	}}, fac{"eddsa.Verify with a fresh decoded key", func(round int) []roMethod {
+		src := eddsa.NewEdDSA(xofStream([]byte(fmt.Sprintf("c20-fresh-eddsa3-%d", round))))
+		sig, _ := src.Sign(msg)
+		pb, _ := src.Public.MarshalBinary()
+		P := ed.Point()
+		if P.UnmarshalBinary(pb) != nil {
+			return nil
+		}
+		return []roMethod{{"eddsa.Verify", func() string { return fmt.Sprint(eddsa.Verify(P, msg, sig)) }},
+			{"schnorr.Verify", func() string { return fmt.Sprint(schnorr.Verify(ed, P, msg, sig)) }}}
+	}}, fac{"share.NewPubPoly from commitments: Eval/Check/Commit", func(round int) []roMethod {
+		st := xofStream([]byte(fmt.Sprintf("c20-fresh-poly-%d", round)))
+		pri := share.NewPriPoly(ed, 3, nil, st)
+		_, cs := pri.Commit(nil).Info()
+		pub := share.NewPubPoly(ed, nil, cs)
+		sh := pri.Eval(1)
+		return []roMethod{{"PubPoly.Eval", func() string { return pointHex(pub.Eval(3).V) }},
+			{"PubPoly.Check", func() string { return fmt.Sprint(pub.Check(sh)) }},
+			{"PubPoly.Shares+Commit", func() string { return pointHex(pub.Shares(4)[3].V) + pointHex(pub.Commit()) }}}
+	}})
+	for _, c := range blsCombos() {
+		c := c
+		if c.name != "bn256/sigG1" && c.name != "bls.kilic/sigG1" && c.name != "bn254/sigG2" && c.name != "bls.circl/sigG2" && c.name != "bls.gnark/sigG1" {
+			continue
+		}
+		out = append(out, fac{"bdn.NewMask " + c.name + ": AggregatePublicKeys/Clone", func(round int) []roMethod {
+			sch := c.bdn()
+			st := xofStream([]byte(fmt.Sprintf("c20-fresh-bdn-%s-%d", c.name, round)))
+			var bp []kyber.Point
+			for i := 0; i < 3; i++ {
+				_, A := sch.NewKeyPair(st)
+				bp = append(bp, A)
+			}
+			mask, err := bdn.NewMask(c.key.G, bp, nil)
+			if err != nil {
+				return nil
+			}
+			_ = mask.SetBit(0, true)
+			_ = mask.SetBit(2, true)
+			return []roMethod{{"AggregatePublicKeys", func() string { p, err := sch.AggregatePublicKeys(mask); return pointHex(p) + fmt.Sprint(err) }},
+				{"Mask.Clone+reads", func() string { m2 := mask.Clone(); return fmt.Sprintf("%x %d", m2.Mask(), mask.CountEnabled()) }}}
+		}}, fac{"fresh pairing suite " + c.name + ": Pair/ValidatePairing/bls", func(round int) []roMethod {
+			var s pairing.Suite
+			switch c.si.Name {
+			case "bn256":
+				s = bn256.NewSuite()
+			case "bn254":
+				s = bn254.NewSuite()
+			default:
+				s = c.si.S // the BLS12-381 adapters are stateless values handed out by the registry
+			}
+			st := xofStream([]byte(fmt.Sprintf("c20-fresh-pair-%s-%d", c.name, round)))
+			a := s.G1().Scalar().Pick(st)
+			P, Q := s.G1().Point().Mul(a, nil), s.G2().Point().Mul(a, nil)
+			B1, B2 := s.G1().Point().Base(), s.G2().Point().Base()
+			return []roMethod{{"Pair", func() string { return pointHex(s.Pair(P, B2)) }},
+				{"ValidatePairing", func() string { return fmt.Sprint(s.ValidatePairing(P, B2, B1, Q), s.ValidatePairing(P, Q, B1, B2)) }}}
+		}})
+	}
+	return out
+}
+
+func TestC20_FirstUse(t *testing.T) {
+	ev := evFor("C20")
+	rounds := budget(20, 320)
+	for fi, f := range c20FreshFactories() {
+		if !mine(fi) {
+			continue
+		}
+		f := f
+		t.Run(f.name, func(t *testing.T) {
+			for round := 0; round < rounds; round++ {
+				twin := f.mk(round)
+				if twin == nil {
+					return
+				}
+				expect := make([]string, len(twin))
+				for i, m := range twin {
+					expect[i] = m.f()
+				}
+				if mm := runConcurrent(f.mk(round), expect, 4, 1); mm != "" {
+					violationOrKnown(t, ev, "C20/first-use/result-mismatch", "first concurrent use of a fresh object changed a result: %s (%s)", mm, f.name)
+				}
+			}
+		})
+		ev.Case(true, "first use: "+f.name, "race-first-use")
+	}
+}
